@@ -232,6 +232,7 @@ import re as _re
 
 _EXC_COMPONENT = _re.compile(r"index\(elem\(EXC\),-?\d+\)|index\(elem\(slice\(elem\(EXC\),[^()]*\)\),-?\d+\)")
 _LEN_TERMS = _re.compile(r"(\+?-?\d*\*?len\(\d+\))")
+_XT_TERMS = _re.compile(r"\+?-?\d*\*?(call\(attr\(try\(\d+\),'get_\w+'\)\)|call\(attr\(obj:EncodedTypeAddrPair\(\d+,\d+\),'get_\w+'\)\)|uleb\(\d+\))")
 
 
 def _interpretable(atom):
@@ -242,6 +243,9 @@ def _interpretable(atom):
         return atom[2].startswith("DN(") and _offset_text(atom[1])
     if kind == "eq0":
         txt = atom[1]
+        if _XT_TERMS.search(txt):
+            # an instruction offset compared with a number decoded from the interpreted try/catch table
+            return _offset_text(_XT_TERMS.sub("", txt)) or _offset_text(_re.sub(r"\+-?\d+$", "", _XT_TERMS.sub("", txt)))
         comps = _EXC_COMPONENT.findall(txt)
         if len(comps) != 1:
             return False
@@ -256,9 +260,52 @@ def _offset_text(t):
     return t.strip("+") in ("", "0")
 
 
-def run_block_model(repo, folder, ma_cls, dn_func, de_func, basic_ops, ops, max_paths=6000):
-    """ops: tuple of K concrete opcodes, one per generic instruction.  -> [ModelPath]"""
+XT_LIST_OFF = 1000      # offsets inside the exception table are labels
+
+
+def xt_label(h):
+    return XT_LIST_OFF + 1 + 16 * h
+
+
+def XTRY(t):
+    return Sym("try", t)
+
+
+def XPAIR(h, i):
+    return Sym("obj:EncodedTypeAddrPair", h, i)
+
+
+def XCATCHALL(h):
+    return Sym("uleb", h)
+
+
+def exception_leaders(exc_table):
+    """what the DEX try/catch encoding makes a leader: every try start and every handler address (typed and catch-all),
+    in bytes = 2 * code units.  exc_table = (T, sizes, assign): T try items, handler h has `sizes[h]` (signed, <= 0 means
+    a catch-all follows abs(size) typed pairs), try t points at handler assign[t]."""
+    T, sizes, assign = exc_table
+    out = []
+    for t in range(T):
+        out.append((lin({mcall(XTRY(t), "get_start_addr"): 2}), "try start (try #%d)" % t))
+    for h in sorted(set(assign)):
+        for i in range(abs(sizes[h])):
+            out.append((lin({mcall(XPAIR(h, i), "get_addr"): 2}), "handler address (handler list #%d, typed #%d)" % (h, i)))
+        if sizes[h] <= 0:
+            out.append((lin({XCATCHALL(h): 2}), "handler address (catch-all of handler list #%d)" % h))
+    return out
+
+
+def run_block_model(repo, folder, ma_cls, dn_func, de_func, basic_ops, ops, max_paths=6000, exc_table=None):
+    """ops: tuple of K concrete opcodes, one per generic instruction.  -> [ModelPath]
+    exc_table=None: determineException is an opaque table (one generic entry / handler).
+    exc_table=(T, sizes, assign): determineException and EncodedCatchHandler are *interpreted* over a generic code item
+    with that try/catch structure (two try ranges may share one handler list, typed + catch-all handlers)."""
     K = len(ops)
+    ech_cls = de_func.module.classes.get("EncodedCatchHandler") if exc_table is not None else None
+    if exc_table is not None and (ech_cls is None or ech_cls.lookup("__init__") is None):
+        raise AnalysisError("anchor vanished: EncodedCatchHandler.__init__")
+    XBUFF, XCM, XHL = Sym("xbuff"), Sym("xcm"), Sym("xhandlers")
+    CODE = mcall(METHOD, "get_code")
     init = ma_cls.lookup("__init__")
     cbb = ma_cls.lookup("_create_basic_block")
     if init is None or cbb is None:
@@ -268,14 +315,62 @@ def run_block_model(repo, folder, ma_cls, dn_func, de_func, basic_ops, ops, max_
     preset = {("c", "isnone", "vm"): 0, ("c", "isa", "method", "ExternalMethod"): 0,
               ("c", "truthy", key(mcall(METHOD, "get_code"))): 1}
 
+    import time as _time
+    t_start = _time.time()
+
     def run(asg0):
+        if len(asg0) > 48 or _time.time() - t_start > 8.0:
+            raise AnalysisError("generic-method model: more than %d undecided facts on one path / 8 s in one scenario (ops=%s, table=%s); "
+                                "the code leaves the fragment the model can enumerate" % (len(asg0), list(ops), exc_table))
         asg = dict(preset)
         asg.update(asg0)
         P = ModelPath()
         P.asg = asg
         pushes = {}
+        building = {"h": None, "objs": None, "pairs": 0}
+
+        def handler_objects(it):
+            if building["objs"] is None:
+                T, sizes, assign = exc_table
+                objs = []
+                for h in range(len(sizes)):
+                    building["h"], building["pairs"] = h, 0
+                    o = it.new_obj(ech_cls, "handler#%d" % h)
+                    it.call_function(ech_cls.lookup("__init__"), [XBUFF, XCM], recv=o)
+                    objs.append(o)
+                building["h"] = None
+                building["objs"] = objs
+            return building["objs"]
+
+        def h_new(it, cls, args, kwargs, node, func):
+            if exc_table is not None and cls.name == "EncodedTypeAddrPair" and building["h"] is not None:
+                building["pairs"] += 1
+                return XPAIR(building["h"], building["pairs"] - 1)
+            return NotImplemented
 
         def h_method(it, recv, name, args, kwargs, node, func):
+            if exc_table is not None:
+                T, sizes, assign = exc_table
+                if recv == CODE and not args:
+                    if name == "get_tries_size":
+                        return T
+                    if name == "get_tries":
+                        return [XTRY(t) for t in range(T)]
+                    if name == "get_handlers":
+                        return XHL
+                if recv == XHL and not args:
+                    if name == "get_list":
+                        return list(handler_objects(it))
+                    if name == "get_size":
+                        return len(sizes)
+                    if name in ("get_off", "get_offset"):
+                        return XT_LIST_OFF
+                if isinstance(recv, Sym) and recv.op == "try" and not args and name == "get_handler_off":
+                    return xt_label(assign[recv.args[0]]) - XT_LIST_OFF
+                if recv == XBUFF:
+                    if name == "tell" and building["h"] is not None:
+                        return xt_label(building["h"])
+                    raise AnalysisError("exception-table model: unexpected stream access %s()" % name)
             if recv == METHOD:
                 if name == "get_instructions_idx" and not args:
                     return list(instr_pairs)
@@ -308,8 +403,18 @@ def run_block_model(repo, folder, ma_cls, dn_func, de_func, basic_ops, ops, max_
             if fobj is de_func or fobj.qualname == de_func.qualname:
                 if len(args) != 2 or args[1] != METHOD:
                     P.exc_bad.append((tuple(args), node))
+                if exc_table is not None:
+                    return it.call_function(de_func, list(args), kwargs)
                 return EXC
+            if exc_table is not None and building["h"] is not None:
+                if fobj.qualname == "readsleb128":
+                    return exc_table[1][building["h"]]
+                if fobj.qualname == "readuleb128":
+                    return XCATCHALL(building["h"])
             return NotImplemented
+
+        def h_inline(f):
+            return exc_table is not None and f.cls is None and f.module is de_func.module and f is not dn_func
 
         def h_global(it, name, func):
             if name == "BasicOPCODES":
@@ -321,7 +426,7 @@ def run_block_model(repo, folder, ma_cls, dn_func, de_func, basic_ops, ops, max_
 
         it = SymInterp(repo, folder, asg=asg,
                        hooks={"method": h_method, "repo_call": h_repo_call, "global": h_global,
-                              "positive": positive, "call": isa_hook},
+                              "positive": positive, "call": isa_hook, "new": h_new, "inline": h_inline},
                        instantiate=("BasicBlocks", "DEXBasicBlock"))
         self_obj = it.new_obj(ma_cls, "self")
         try:
@@ -359,6 +464,11 @@ def run_block_model(repo, folder, ma_cls, dn_func, de_func, basic_ops, ops, max_
             for j in range(K):
                 if bflag[j] and it.atom("in", key(idx), key(DNK(j))):
                     return "branch target of instruction %d" % j
+            if exc_table is not None:
+                for val, what in exception_leaders(exc_table):
+                    if it.eq(idx, val):
+                        return what
+                return None
             if it.eq(idx, E_START):
                 return "try start"
             if it.eq(idx, H_ADDR):
@@ -424,7 +534,7 @@ def compare_partition(P, ops, basic_ops):
                 k = miss[0]
                 if k in P.why:
                     w = P.why[k]
-                    cat = "leader/" + ("branch-target" if w.startswith("branch") else w.replace(" ", "-"))
+                    cat = "leader/" + ("branch-target" if w.startswith("branch") else w.split(" (")[0].replace(" ", "-"))
                 else:
                     cat = "split-after-branch"
             elif extra:
